@@ -179,3 +179,193 @@ def gen_qua_doc(r: random.Random, hi: int = 10) -> dict:
 def gen_qua_fmt(r: random.Random, knobs: dict) -> dict:
     return dict(newline=knobs.get("stored_newline", "lf"), allow_unicode=r.random() < 0.7, flow=r.random() < 0.25,
                 width=r.choice([80, 80, 20, 1000]), sections_first=r.random() < 0.2)
+
+
+# ---------------------------------------------------------------- stepmania (text first, C02)
+
+SM_STR = ["Song", "A B", "x", "Title 1", "Caravan", "Escapes!", "q-w_e", "曲", "Ünï code", "a.b", "(x)", "[y]", "100%", "a=b", "a,b", ""]
+SM_TYPES = [("dance-single", 4), ("dance-single", 4), ("dance-double", 8), ("dance-solo", 6), ("dance-threepanel", 3), ("kb7-single", 7),
+            ("dance-couple", 4), ("dance-routine", 8)]
+SM_ROWS = [4, 4, 8, 8, 12, 16, 16, 24, 32, 48, 64, 96, 192, 20, 28, 36]
+SM_BPM_STR = ["120.000", "60.000", "90.000", "150.000", "173.500", "180.000", "200.000", "240.000", "87.250", "300.000", "30.000", "128", "99.999"]
+SM_DIFFS = ["Beginner", "Easy", "Medium", "Hard", "Challenge", "Edit"]
+
+
+def gen_sm_notes(r: random.Random, keys: int, n_measures: int, density=0.25) -> list[list[str]]:
+    """measures of rows with well-paired hold/roll heads and ends"""
+    open_: set[int] = set()
+    measures = []
+    for m in range(n_measures):
+        R = r.choice(SM_ROWS)
+        if R > 48 and r.random() < 0.5:
+            R = r.choice([4, 8, 16])
+        p = density * min(1.0, 8.0 / R) * r.choice([0.5, 1, 2])
+        rows = []
+        for ri in range(R):
+            row = []
+            for c in range(keys):
+                ch = "0"
+                if c in open_:
+                    if r.random() < max(p, 0.15):
+                        ch = "3"
+                        open_.discard(c)
+                elif r.random() < p:
+                    ch = r.choice(["1", "1", "1", "1", "2", "2", "4", "M", "L", "F", "K"])
+                    if ch in "24":
+                        open_.add(c)
+                row.append(ch)
+            rows.append("".join(row))
+        measures.append(rows)
+    if open_:
+        rows = ["".join("3" if c in open_ else "0" for c in range(keys))] + ["0" * keys] * 3
+        measures.append(rows)
+    return measures
+
+
+def gen_sm_doc(r: random.Random, hi: int = 4) -> dict:
+    n_charts = r.choice([1, 1, 2, 3, 4])
+    n_measures = r.randint(1, max(2, min(6, hi)))
+    nb = r.choice([1, 1, 2, 3, 4, 6])
+    beats = {0}
+    while len(beats) < nb:
+        x = r.random()
+        if x < 0.5:
+            beats.add(4 * r.randint(0, n_measures))  # measure line
+        else:
+            beats.add(r.randint(0, 4 * n_measures * 8) / 8)  # 1/8-beat grid: exact in three decimals (subset of the 1/48 grid)
+    bpms = [[f"{b:.3f}", r.choice(SM_BPM_STR)] for b in sorted(beats)]
+    if r.random() < 0.3:
+        r.shuffle(bpms[1:])
+    meta = dict(TITLE=r.choice(SM_STR), SUBTITLE=r.choice(SM_STR), ARTIST=r.choice(SM_STR), TITLETRANSLIT=r.choice(["", "tt"]),
+                SUBTITLETRANSLIT="", ARTISTTRANSLIT=r.choice(["", "at"]), GENRE=r.choice(["", "g"]), CREDIT=r.choice(SM_STR),
+                BANNER=r.choice(["", "bn.png"]), BACKGROUND=r.choice(["", "bg.jpg", "背景.png"]), LYRICSPATH="", CDTITLE="",
+                MUSIC=r.choice(["audio.mp3", "a b.ogg"]), SAMPLESTART=r.choice(["0.000", "30.500", "12.345"]),
+                SAMPLELENGTH=r.choice(["10.000", "12.000"]), SELECTABLE=r.choice(["YES", "YES", "NO"]),
+                DISPLAYBPM=r.choice(["", "120.000", "*", "100.000=200.000"[:7]]), BGCHANGES="", FGCHANGES="")
+    for k in r.sample(["SUBTITLE", "TITLETRANSLIT", "SUBTITLETRANSLIT", "ARTISTTRANSLIT", "GENRE", "BANNER", "LYRICSPATH", "CDTITLE",
+                       "DISPLAYBPM", "BGCHANGES", "FGCHANGES", "SAMPLESTART", "SAMPLELENGTH", "SELECTABLE"], r.choice([0, 0, 2, 6])):
+        meta.pop(k)
+    charts = []
+    for _ in range(n_charts):
+        ty, keys = r.choice(SM_TYPES)
+        charts.append(dict(type=ty, desc=r.choice(["", "d", "me", "K. Ward"]), diff=r.choice(SM_DIFFS), meter=r.choice([1, 5, 12, 20]),
+                           radar=r.choice(["0,0,0,0,0", "0.5,0.25,0,1,0.125", "0.000,0.000,0.000,0.000,0.000"]),
+                           measures=gen_sm_notes(r, keys, n_measures)))
+    return dict(meta=meta, offset=r.choice(["0.000", "-0.250", "0.100", "1.234", "-12.500", "0"]), bpms=bpms,
+                stops=r.choice([None, None, ""]), charts=charts)
+
+
+def gen_sm_fmt(r: random.Random, knobs: dict) -> dict:
+    return dict(newline=knobs.get("stored_newline", "lf"), lead_comment=r.random() < 0.3, bpms_multiline=r.random() < 0.4,
+                blank_after_header=r.random() < 0.8, chart_comment=r.random() < 0.8, indent=r.random() < 0.8,
+                measure_comments=r.random() < 0.5, blank_rows=r.random() < 0.3)
+
+
+# ---------------------------------------------------------------- on-grid charts in beat space (C03, C05, C09 sources)
+
+from fractions import Fraction  # noqa: E402
+
+GRID_DIVS = (1, 2, 3, 4, 5, 6, 7, 8, 9, 12, 16, 32, 64, 96)
+GRID_BPMS = [60.0, 90.0, 100.0, 120.0, 150.0, 173.5, 180.0, 200.0, 240.0, 87.25, 300.0, 30.0, 128.0]
+
+
+def gen_timeline(r: random.Random, n_measures: int, exact: bool, t0: float = 0.0, nb: int | None = None):
+    """[(beat Fraction, bpm float, ms Fraction)] starting at beat 0 / t0 ms"""
+    nb = nb if nb is not None else r.choice([1, 1, 2, 3, 4])
+    beats = {Fraction(0)}
+    tries = 0
+    while len(beats) < nb and tries < 50:
+        tries += 1
+        if exact:
+            beats.add(Fraction(4 * r.randint(0, max(1, n_measures - 1))))
+        else:
+            d = r.choice([1, 2, 3, 4, 8, 16, 6, 12])
+            beats.add(Fraction(r.randint(0, 4 * n_measures - 1)) + Fraction(r.randrange(d), d))
+    out = []
+    ms = Fraction(t0)
+    prev = None
+    for b in sorted(beats):
+        v = r.choice(GRID_BPMS)
+        if prev is not None:
+            ms += (b - prev[0]) * Fraction(60000) / Fraction(prev[1])
+        out.append((b, v, ms))
+        prev = (b, v)
+    return out
+
+
+def ms_at(tl, beat: Fraction) -> Fraction:
+    cur = tl[0]
+    for p in tl:
+        if p[0] <= beat:
+            cur = p
+    return cur[2] + (beat - cur[0]) * Fraction(60000) / Fraction(cur[1])
+
+
+def gen_positions(r: random.Random, tl, n_measures: int, n: int, divs=GRID_DIVS, per_measure_lcm_cap: int | None = None) -> list[Fraction]:
+    """n distinct beat positions whose distance to the ACTIVE tempo point is on the snap grid"""
+    out = set()
+    tries = 0
+    meas_dens: dict[int, set] = {}
+    while len(out) < n and tries < 20 * n + 20:
+        tries += 1
+        cur = r.choice(tl) if r.random() < 0.3 else None
+        d = r.choice(divs) if r.random() < 0.5 else r.choice([1, 2, 4, 4, 8, 16, 3])
+        whole = r.randint(0, 4 * n_measures - 1)
+        pos = Fraction(whole) + Fraction(r.randrange(d), d)
+        if cur is not None:
+            pos = cur[0] + Fraction(r.randint(0, 7)) + Fraction(r.randrange(d), d)
+        if pos >= 4 * n_measures:
+            continue
+        # distance to the active tempo point must be on the grid
+        act = tl[0]
+        for p in tl:
+            if p[0] <= pos:
+                act = p
+        rel = pos - act[0]
+        frac = rel - (rel.numerator // rel.denominator)
+        if frac.denominator not in GRID_DIVS and not any(frac.denominator and dd % frac.denominator == 0 for dd in GRID_DIVS):
+            continue
+        if per_measure_lcm_cap:
+            m = int(pos // 4)
+            den = pos.denominator * 4  # the writer's row denominator for this beat
+            cand = meas_dens.get(m, set()) | {den}
+            l = 1
+            import math as _m
+            for x in cand:
+                l = l * x // _m.gcd(l, x)
+            if l > per_measure_lcm_cap:
+                continue
+            meas_dens[m] = cand
+        out.add(pos)
+    return sorted(out)
+
+
+def gen_grid_objects(r: random.Random, tl, keys: int, n_measures: int, hi: int, kinds, min_gap: Fraction = Fraction(0), lcm_cap=None):
+    """{kind: rows} with per-column non-overlapping objects at grid positions"""
+    res = {k: [] for k in kinds}
+    span_kinds = [k for k in kinds if k in ("holds", "rolls")]
+    point_kinds = [k for k in kinds if k not in ("holds", "rolls")]
+    pool = gen_positions(r, tl, n_measures, max(2, size(r, hi) * 2), per_measure_lcm_cap=lcm_cap)
+    for c in range(keys):
+        if not pool or r.random() < 0.25:
+            continue
+        k = r.randint(1, max(1, min(len(pool), max(1, hi // 2))))
+        ps = sorted(r.sample(pool, k))
+        if min_gap:
+            kept = []
+            for p in ps:
+                if not kept or p - kept[-1] >= min_gap:
+                    kept.append(p)
+            ps = kept
+        i = 0
+        while i < len(ps):
+            t = float(ms_at(tl, ps[i]))
+            if span_kinds and i + 1 < len(ps) and r.random() < 0.35:
+                t2 = float(ms_at(tl, ps[i + 1]))
+                res[r.choice(span_kinds)].append(dict(offset=t, column=c, length=t2 - t))
+                i += 2
+            else:
+                kind = r.choice(point_kinds) if (len(point_kinds) > 1 and r.random() < 0.3) else point_kinds[0]
+                res[kind].append(dict(offset=t, column=c))
+                i += 1
+    return res
